@@ -64,7 +64,7 @@ CHECKS["C19"] = {
 CHECKS["C16"] = {
     "level": "proof",
     "text": "Kernel-checked theorems over ordered fields for the AverageLearner model (moments, variance identity, corrected sample "
-            "std, loss formula, loss antitone in the number of requested points hence loss(real=False) <= loss(real=True), fresh seeds incl. pigeonhole for the set-iteration branch), the AverageLearner1D sampling model "
+            "std, loss formula, std and loss non-negative, loss antitone in the number of requested points hence loss(real=False) <= loss(real=True), fresh seeds incl. pigeonhole for the set-iteration branch), the AverageLearner1D sampling model "
             "(value = mean, counts, Student-t error, batch = single, under-sampled set tracked and served) and the COMPLETE "
             "AverageLearner1D model Avg1DFull.lean (Learner1D loss machinery, distances, rescaled errors, all three branches of ask): "
             "for every state the ask rule (under-sampled member / largest rescaled error above delta and below max_samples / "
